@@ -149,6 +149,29 @@ async def transfer(item, scratch):
         out["raised"] = "timeout (60 s)"
     except Exception as e:  # noqa
         out["raised"] = f"{type(e).__name__}: {str(e)[:160]}"
+    if item.get("then"):
+        # a SECOND transfer of the same source to the same location after the first copy was lost / clobbered and
+        # invalidated (what the recovery's availability check does), or simply repeated
+        ev = item["then"]["event"]
+        if not out["raised"]:
+            if ev in ("lost", "clobbered"):
+                if os.path.isdir(final) and not os.path.islink(final):
+                    shutil.rmtree(final)
+                else:
+                    os.unlink(final)
+                if ev == "clobbered":
+                    if item["shape"] == "file":
+                        _w(final, b"STALE GARBAGE")
+                    else:
+                        _w(os.path.join(final, "a.txt"), b"STALE GARBAGE")
+                dm.invalidate_location(dst_loc, final)
+            dst = final = os.path.join(dst_dir, "second-" + name)
+            try:
+                await asyncio.wait_for(dm.transfer_data(src_loc, src, [dst_loc], dst, writable=item["then"]["writable"]), timeout=60)
+            except asyncio.TimeoutError:
+                out["raised"] = "second transfer: timeout (60 s)"
+            except Exception as e:  # noqa
+                out["raised"] = f"second transfer: {type(e).__name__}: {str(e)[:160]}"
     out["src_after"] = snapshot(src)
     out["before"] = before
     out["dst"] = snapshot(final)
@@ -180,6 +203,8 @@ def check_chunk(chunk):
             kind = "same-location" if item["src"] == item["dst"] else ("remote-remote" if "local" not in (item["src"], item["dst"]) else
                                                                        ("to-remote" if item["src"] == "local" else "to-local"))
             base = f"C22|{kind}|{'rw' if item['writable'] else 'ro'}|shape={item['shape']}|name={item['name']}|dst={item['dstmode']}"
+            if item.get("then"):
+                base += f"|then={item['then']['event']}+{'rw' if item['then']['writable'] else 'ro'}"
             msgs = []
             if res["raised"]:
                 msgs.append(("raises", f"transfer_data raised {res['raised']}"))
@@ -231,6 +256,15 @@ def all_items(tier):
                 for sh in ("file", "dir2"):
                     for dm in (("absent",) if quick else ("absent", "existing-dir", "rename")):
                         items.append({"src": a, "dst": b, "writable": w, "shape": sh, "name": nm, "dstmode": dm})
+    # two-transfer histories: first copy (ro/rw), then {nothing, copy lost + invalidated, copy clobbered + invalidated}, then
+    # a second transfer of the same source to the same location
+    for a, b in [(a, b) for a, b in pairs if a != b]:
+        for sh in ("file", "dir2"):
+            for w1 in (False, True):
+                for ev in ("none", "lost", "clobbered"):
+                    for w2 in (False, True):
+                        items.append({"src": a, "dst": b, "writable": w1, "shape": sh, "name": "plain", "dstmode": "absent",
+                                      "then": {"event": ev, "writable": w2}})
     if not quick:
         for a, b in pairs:
             for nm in NAMES:
@@ -261,7 +295,9 @@ def main(argv=None):
         "shapes (file, empty file, executable, 1 MiB binary, empty dir, 2 files, nested depth 3 with empty dir, 30 entries, "
         "internal relative symlink, hostile child names) x destination {absent, existing directory, different basename} x 11 "
         "name classes (space, quotes, $, *, leading dash, unicode, 120 bytes, ;, backtick) on the file and 2-file shapes "
-        "(thorough: on every shape), through the real DefaultDataManager.transfer_data; oracle: destination content, structure "
+        "(thorough: on every shape), through the real DefaultDataManager.transfer_data; plus two-transfer histories (first copy ro/rw, "
+        "then nothing / copy lost and invalidated / copy clobbered and invalidated, then a second transfer ro/rw) for every pair "
+        "of different locations; oracle: destination content, structure "
         "and x-bits equal the source (links followed), no links in writable copies, destination registered, source untouched; "
         "distinct = (pair kind, mode, shape, name, destination, outcome)")
     rep.assumptions = ["remote locations are /bin/sh on this machine with separate directories (ShellRemoteConnector); wrapped "
